@@ -134,6 +134,16 @@ Theorem C06_issued_twice_disjoint : forall st k1 s1 ids1 k2 s2 ids2,
   get_new_node_ids st k1 = (s1, ids1) -> get_new_node_ids s1 k2 = (s2, ids2) ->
   forall i, In i ids1 -> ~ In i ids2.
 Proof. exact FT.Proofs.EditIssuedIds.issued_twice_disjoint. Qed.
+(* along sessions: only _get_new_node_ids moves the node-id counter, and only upwards (no edit, undo, redo or
+   refusal touches it), so of any two issuing calls of one session - whatever happens in between - the later
+   one issues strictly larger ids: an issued id is never issued again *)
+Theorem C06_counter_only_moved_by_issuing : forall st o, (forall k, o <> ONewIds k) -> nctr (fst (step st o)) = nctr st.
+Proof. exact FT.Proofs.EditIssuedIds.step_nctr. Qed.
+Theorem C06_session_issued_ids_increase : forall st k1 mid k2,
+  let s1 := fst (step st (ONewIds k1)) in
+  let s2 := run s1 mid in
+  forall i j, In i (snd (snd (step st (ONewIds k1)))) -> In j (snd (snd (step s2 (ONewIds k2)))) -> i < j.
+Proof. exact FT.Proofs.EditIssuedIds.session_issued_ids_increase. Qed.
 
 (* ---- non-vacuity: a three-node state (track 1 = 1 -> 2, track 2 = 3) ---- *)
 Definition ex_feats : feats :=
@@ -145,6 +155,11 @@ Definition ex_state : state :=
             (3, [(KTime, VZ 0); (KPos, VTok 2); (KTrack, VZ 2); (KLin, VZ 2)])]
            [(1, 2, [])] None ex_feats
            [(1, [2; 1]); (2, [3])] [(1, [1; 2]); (2, [3])] 2 2 2.
+
+Example C06_issued_nonvacuous :
+  snd (snd (step ex_state (ONewIds 2))) = [4; 5] /\
+  snd (snd (step (run (fst (step ex_state (ONewIds 2))) [ODelEdge 1 2; OUndo]) (ONewIds 2))) = [6; 7].
+Proof. vm_compute. split; reflexivity. Qed.
 
 (* ---- node actions: the six graph-and-id invariants (configuration, dictionaries, forest, track ids,
         lineage ids, lookups) are preserved together by UserDeleteNode and UserAddNode, all branches
@@ -388,6 +403,8 @@ Proof. vm_compute. repeat split; reflexivity. Qed.
 
 Print Assumptions C06_issued_range.
 Print Assumptions C06_issued_twice_disjoint.
+Print Assumptions C06_counter_only_moved_by_issuing.
+Print Assumptions C06_session_issued_ids_increase.
 Print Assumptions C06_book_add_node.
 Print Assumptions C06_book_del_node.
 Print Assumptions C06_book_edge_attr_seg.
